@@ -33,7 +33,8 @@ CLAIMED.update({
             'duplicated ack carrying the start address of the next queued write is indistinguishable (protocol).', '5 C06'),
     'C07': ('proof', 'The real dispatcher loop is run on scripted packets: match predicate proved for all 256 headers and all registrations; '
             'snapshot delivery order under every combination of add/remove/raise actions of three callbacks; removal; Caller.call.',
-            'Registrations from other threads during dispatch not covered; callbacks raise only Exception subclasses; three registrations (bounded).', '5 C07'),
+            'Registrations from other threads during dispatch only as one explicit schedule (a request registered while the answer patterns are '
+            'scanned); callbacks raise only Exception subclasses; three registrations (bounded).', '5 C07'),
     'C10': ('proof', 'send_packet timer/transmit rules, retry while pending, no retransmission after the answer, longest-prefix cancellation, '
             'close/reopen histories (old-session timers transmit nothing) on a real Crazyflie with a recording Timer.',
             'Real-time clause (retransmitted at the timeout interval) and timer/reply races are not decidable here; Timer fires at most once.', '5 C10'),
@@ -74,8 +75,8 @@ CLAIMED.update({
             'first disconnected, reconnect on the same object (also from a connection_lost callback), driver lookup failures, SyncCrazyflie '
             'open/close return or raise.',
             'NOT claimed: bounded-time disconnect, freedom from deadlock / dead threads under real interleavings (threads are sequential '
-            'models); device simulator with empty log table and 1-2 parameters; one recorded known finding (duplicate `connected` after an '
-            'interrupted TOC download).', '5 C02'),
+            'models; one explicit schedule per contract where stated: stale retry timers firing in the next attempt, link lost while the '
+            'updater waits); device simulator with empty log table and 1-2 parameters.', '5 C02'),
     'C03': ('proof', 'TocFetcher inductive step for any table size / index up to 65535 (V2) and 255 (V1), ignore-step for every other packet, '
             'element decoders for every name split and type code, whole downloads with duplicated / stale / repeated-info replies, lookup '
             'agreement, log/param refresh incl. extended-type markers.',
@@ -89,10 +90,12 @@ CLAIMED.update({
             'inside poses); scale factor identities; deck sensor diagonal constant; aligner applies ONE transformation to all base stations; '
             'de-flip algebra; isometry defect term.',
             'float mode R; small numpy model (pyvc/numpy_model.py); least-squares convergence of _find_transformation and scipy Rotation are '
-            'external and NOT claimed (sentence 1 of the property is only covered as far as the de-flip and one-transformation clauses).', '5 C16'),
+            'external and NOT proved; they are covered only by ONE bounded native check (align.end-to-end.sampled: 1500 quick / 20000 thorough '
+            'seeded in-envelope alignments on the real solver), reported under bounded_checks and never counted as proved.', '5 C16'),
     'C18': ('proof', 'CPX header codec for all 65536 header values and all enum combinations; _readData / readPacket proved by loop invariant for '
             'every payload length and every fragmentation; exhaustive short-stream reassembly; per-function routing; CRTP tunnel both '
-            'directions for all headers and payload lengths 0..30.',
+            'directions for all headers and payload lengths 0..30; UART transport frame / limit / clear-to-send / round trip for payload '
+            'lengths 0, 1, 30, 98.',
             'Socket model (recv returns a non-empty prefix) and CPX header layout assumed; little-endian host for the native H code; router '
             'and receiver threads sequential.', '5 C18'),
 })
